@@ -18,27 +18,48 @@ import (
 // countCtx is a deterministic fault injector: Done() hands out a closed
 // channel from the k-th poll on. Value() forwards so that time zones work.
 type countCtx struct {
-	parent  context.Context
-	k       int
-	polls   int
-	firedAt int // poll index at which the context first reported done; -1 if never
-	err     error
+	parent   context.Context
+	k        int
+	polls    int // Done() calls
+	firedAt  int // poll index at which Done() first reported done; -1 if never
+	err      error
+	tickMode bool // the context becomes done at the k-th *use* (Done or Value), not only at a poll
+	ticks    int  // Done() + Value() calls
+	doneTick int  // tick at which the context became done (tickMode); -1 if not yet
+	after    int  // uses of the context after it became done
 }
 
 var closedCh = func() chan struct{} { c := make(chan struct{}); close(c); return c }()
 
 func newCountCtx(parent context.Context, k int, err error) *countCtx {
-	return &countCtx{parent: parent, k: k, firedAt: -1, err: err}
+	return &countCtx{parent: parent, k: k, firedAt: -1, doneTick: -1, err: err}
+}
+
+func (c *countCtx) tick() {
+	if c.doneTick >= 0 {
+		c.after++
+	} else if c.tickMode && c.k >= 0 && c.ticks >= c.k {
+		c.doneTick = c.ticks
+	}
+	c.ticks++
 }
 
 func (c *countCtx) Deadline() (time.Time, bool) { return time.Time{}, false }
-func (c *countCtx) Value(key any) any            { return c.parent.Value(key) }
+func (c *countCtx) Value(key any) any {
+	c.tick()
+	return c.parent.Value(key)
+}
+
 func (c *countCtx) Done() <-chan struct{} {
+	c.tick()
 	i := c.polls
 	c.polls++
-	if c.k >= 0 && i >= c.k {
+	if (c.tickMode && c.doneTick >= 0) || (!c.tickMode && c.k >= 0 && i >= c.k) {
 		if c.firedAt < 0 {
 			c.firedAt = i
+			if c.doneTick < 0 {
+				c.doneTick = c.ticks - 1
+			}
 		}
 		return closedCh
 	}
@@ -46,7 +67,7 @@ func (c *countCtx) Done() <-chan struct{} {
 }
 
 func (c *countCtx) Err() error {
-	if c.firedAt >= 0 || c.k == 0 { // k == 0: the context is done before the call
+	if c.firedAt >= 0 || c.doneTick >= 0 || c.k == 0 { // k == 0: the context is done before the call
 		return c.err
 	}
 	return nil
@@ -127,6 +148,26 @@ func checkCancelFacts(c CancelCase) (v *Violation, f cancelFacts) {
 			if open {
 				hi = n + 3
 			}
+			// second sweep: the context becomes done at the k-th *use* (poll or Value lookup, e.g. the
+			// time-zone lookups of datetime steps): the executor may legitimately miss a cancellation
+			// that arrives after its last poll, but it must not keep evaluating step after step
+			if base.ticks > base.polls && c.OnlyK == nil {
+				for k := 0; k <= base.ticks; k++ {
+					cc := newCountCtx(pr.ctx, k, context.Canceled)
+					cc.tickMode = true
+					o := runEntry(e, cc, pr, silent)
+					f.runs++
+					if o.Panic != "" {
+						return violf("%s(%q) panicked with the context done at use %d: %s", entryNames[e], c.Exec.Path, k, o.Panic), f
+					}
+					if cc.doneTick >= 0 && o.Err == nil && cc.after > nodes+2 {
+						return violf("%s(%q, %s, silent=%v): the context became done at its use %d of %d, the executor went on to use it %d more times (bound %d) and returned a normal outcome %s", entryNames[e], c.Exec.Path, c.Exec.Doc, silent, k, base.ticks, cc.after, nodes+2, o), f
+					}
+					if cc.firedAt >= 0 && (o.Err == nil || !errors.Is(o.Err, context.Canceled) || !errors.Is(o.Err, exec.ErrExecution)) {
+						return violf("%s(%q, %s, silent=%v): the executor polled the done context (use %d) but returned %s", entryNames[e], c.Exec.Path, c.Exec.Doc, silent, k, o), f
+					}
+				}
+			}
 			for k := 0; k <= hi; k++ {
 				if c.OnlyK != nil && *c.OnlyK != k {
 					continue
@@ -179,6 +220,43 @@ func checkCancelFacts(c CancelCase) (v *Violation, f cancelFacts) {
 			}
 		}
 	}
+	// standard-library contexts that are already done, with and without a cause
+	if c.OnlyK == nil {
+		for e := range entryNames {
+			for _, mk := range []struct {
+				name string
+				ctx  func() (context.Context, error)
+			}{
+				{"WithCancel", func() (context.Context, error) {
+					cx, cancel := context.WithCancel(pr.ctx)
+					cancel()
+					return cx, context.Canceled
+				}},
+				{"WithCancelCause", func() (context.Context, error) {
+					cx, cancel := context.WithCancelCause(pr.ctx)
+					cancel(errors.New("shutting down"))
+					return cx, context.Canceled
+				}},
+				{"WithDeadline(past)", func() (context.Context, error) {
+					cx, cancel := context.WithDeadline(pr.ctx, time.Unix(0, 0))
+					_ = cancel
+					return cx, context.DeadlineExceeded
+				}},
+				{"WithDeadlineCause(past)", func() (context.Context, error) {
+					cx, cancel := context.WithDeadlineCause(pr.ctx, time.Unix(0, 0), errors.New("budget spent"))
+					_ = cancel
+					return cx, context.DeadlineExceeded
+				}},
+			} {
+				cx, want := mk.ctx()
+				o := runEntry(e, cx, pr, true)
+				f.runs++
+				if o.Panic != "" || o.Err == nil || !errors.Is(o.Err, exec.ErrExecution) || !errors.Is(o.Err, want) || errors.Is(o.Err, exec.ErrVerbose) || o.Items != nil || o.Item != nil || o.Bool {
+					return violf("%s(%q, %s) with an already done %s context returned %s; want an error wrapping exec.ErrExecution and %v, and no items", entryNames[e], c.Exec.Path, c.Exec.Doc, mk.name, o, want), f
+				}
+			}
+		}
+	}
 	return nil, f
 }
 
@@ -187,6 +265,7 @@ func cancelPool() []ExecCase {
 	type pd struct{ p, d string }
 	docA := `{"a":[1,2,{"b":3}],"b":{"c":[4,5]},"s":"abc","t":"2015-08-01T12:00:00+01:00","d":"2015-08-01"}`
 	docB := `[1,"a",null,[2,3],{"a":1,"b":[1,2]}]`
+	docC := `["2015-08-01T12:00:00+01:00","2015-08-02T12:00:00+01:00","2015-08-03T12:00:00+01:00","2015-08-04T12:00:00+01:00","2015-08-05T12:00:00+01:00","2015-08-06T12:00:00+01:00","2015-08-07T12:00:00+01:00","2015-08-08T12:00:00+01:00","2015-08-09T12:00:00+01:00","2015-08-10T12:00:00+01:00","2015-08-11T12:00:00+01:00","2015-08-12T12:00:00+01:00","2015-08-13T12:00:00+01:00","2015-08-14T12:00:00+01:00"]`
 	pool := []pd{
 		{"$", docA}, {"$.a", docA}, {"$.a[*]", docA}, {"$.*", docB}, {"$[*]", docB}, {"$.**", docB}, {"$.**{1 to 2}", docA}, {"$.**{last}", docA}, {"strict $.**.b", docA},
 		{"$.a[0]", docA}, {"$.a[0 to 1]", docA}, {"$.a[last]", docA}, {"$.a[last - 1, 0]", docA}, {"$.a[$.a[0]]", docA}, {"$.a[$.a[0] to $.a[1]]", docA}, {"$[3][$[0]]", docB},
@@ -204,7 +283,8 @@ func cancelPool() []ExecCase {
 		{"strict $.a[*].b", docA}, {"strict $.nokey", docA}, {"strict $ ? (@.nokey == 1)", docA}, {"strict ($.nokey == 1) is unknown", docA}, {"strict exists($.nokey)", docA}, {"strict $.a[5]", docA}, {"$.a[5]", docA},
 		{"$[*] ? (@ == 1 || @ == \"a\")", docB}, {"$[*] ? (@.a == 1)", docB}, {"$[*] ? (exists(@.b[*] ? (@ > 1)))", docB}, {"$[*].a", docB}, {"strict $[*] ? ((@.a == 1) is unknown)", docB}, {"$[*] ? (@ starts with \"a\")", docB},
 		{"$[*] ? (@ like_regex \"a\")", docB}, {"$[*].type()", docB}, {"$[3][*] ? (@ > $[0])", docB}, {"$[4].b[last] ? (@ > 1)", docB}, {"$.**{2} ? (@ > 1)", docB}, {"$.** ? (@.type() == \"number\")", docB},
-		{"$[*] ? (((@ > 1) is unknown) || @ == 1)", docB}, {"($[*] > 1) is unknown && exists($[4].a)", docB}, {"$[0 to (($[0] == 1) is unknown).size()]", docB},
+		{"$[*] ? (((@ > 1) is unknown) || @ == 1)", docB},
+		{"$[*].timestamp_tz()", docC}, {"$[*].timestamp_tz().string()", docC}, {"$[*].date()", docC}, {"$[*] ? (@.datetime() < \"2016-01-01\".datetime())", docC}, {"$.**.time_tz()", docC}, {"strict $[0 to last].timestamp()", docC}, {"($[*] > 1) is unknown && exists($[4].a)", docB}, {"$[0 to (($[0] == 1) is unknown).size()]", docB},
 	}
 	var out []ExecCase
 	for _, x := range pool {
